@@ -770,6 +770,10 @@ func (w *srvWorld) checkC09(final bool) {
 				return
 			}
 		}
+		if len(sent[a.Tag]) >= 1 && sent[a.Tag][0].Method != a.Method {
+			r.Fail("push-wrong-request", "%s was issued for method %q, the request on the wire names %q", a.Tag, a.Method, sent[a.Tag][0].Method)
+			return
+		}
 		if len(sent[a.Tag]) > 1 {
 			r.Fail("notify-record-count", "%s transmitted %d requests, want exactly one", a.Tag, len(sent[a.Tag]))
 			return
@@ -883,7 +887,7 @@ func (w *srvWorld) checkC09(final bool) {
 			}
 			used[pay] = a.Tag
 		case a.ErrV == context.Canceled || a.ErrV == context.DeadlineExceeded:
-			okCtx := (a.CtxKind == 1 && a.ErrV == context.Canceled && ctxEnd <= a.Return) ||
+			okCtx := ((a.CtxKind == 1 || a.CtxKind == 3) && a.ErrV == context.Canceled && ctxEnd <= a.Return) ||
 				(a.CtxKind == 2 && a.ErrV == context.DeadlineExceeded && ctxEnd <= a.Return) ||
 				(a.ErrV == context.Canceled && (stopped || hctxMayEnd))
 			if !okCtx {
